@@ -66,28 +66,57 @@ Example sound_hit_after_inplace :
               /\ observe s1 [] v = ObsItems [([], mt3)] [(["a"], OTensor 7 0 3); (["nt"], ONonTensor KNonTensorData 1); (["n"; "c"], OTensor 2 0 3)].
 Proof. eexists; eexists; repeat split; vm_compute; reflexivity. Qed.
 
-Definition D19_ops : list op := [ORead [] MFlattenKeys [] []; OPromote ["nt"] (lfNS 20 20)].
-Theorem refuted_nontensor_promotion :
-  outcomes repo false w0 D19_ops = [Done; Done] /\ stale_hit (run repo false w0 D19_ops) [] MFlattenKeys [] [].
-Proof. split; [reflexivity|stale]. Qed.
+(* ---------------------------------------------------------------- the repaired write paths: the next read is a MISS (the caches that
+   could see the write were erased) and returns the fresh value *)
+Definition fresh_miss (s : state) (p : path) (m : meth) (a : list arg) (k : list (string * arg)) : Prop :=
+  exists v n, snd (read false s p m a k) = Some (Miss, v, Some v) /\ find_node s p = Some n /\ v = fresh s n m a k.
+Ltac fresh_miss := eexists; eexists; split; [vm_compute; reflexivity|split; vm_compute; reflexivity].
 
-Theorem refuted_values_list_after_promotion :
-  stale_hit (run repo false w0 [ORead [] MValuesList [] []; OPromote ["nt"] (lfNS 20 20)]) [] MValuesList [] [].
+Definition D19_ops : list op := [ORead [] MFlattenKeys [] []; OPromote ["nt"] (lfNS 20 20)].
+Example repaired_nontensor_promotion :
+  outcomes repo false w0 D19_ops = [Done; Done] /\ fresh_miss (run repo false w0 D19_ops) [] MFlattenKeys [] [].
+Proof. split; [reflexivity|fresh_miss]. Qed.
+(* the same history on the library before the repair: a stale hit (D19) *)
+Example unrepaired_nontensor_promotion : stale_hit (run unrepaired false w0 D19_ops) [] MFlattenKeys [] [].
 Proof. stale. Qed.
+
+(* a nested entry is rebound: the caches of the nodes ABOVE the owner are erased too (lock parents) *)
+Definition w0_nested : state :=
+  {| nodes := [mknode [] 1 NTD (Some true) [] false; mknode ["n"] 2 NTD (Some true) [[]] false];
+     leaves := [(["a"], lfT 10 10); (["n"; "nt"], lfND 11 1)];
+     store := [(10, 1%Z)] |}.
+Example repaired_promotion_erases_upwards :
+  fresh_miss (run repo false w0_nested [ORead [] MFlattenKeys [] []; ORead ["n"] MFlattenKeys [] []; OPromote ["n"; "nt"] (lfNS 20 20)]) [] MFlattenKeys [] [].
+Proof. fresh_miss. Qed.
 
 Definition mm_leaf : leaf := {| l_uid := 30; l_kind := KTensor; l_stor := 30; l_payload := 0; l_dtype := 0; l_numel := 3; l_esize := 8; l_mm := true |}.
 Definition make_memmap_ops : list op := [ORead [] MSortedKeys [] []; ORead [] MParamCount [] []; OMakeMemmap ["z"] mm_leaf].
-Theorem refuted_make_memmap :
+Example repaired_make_memmap :
   outcomes repo false w_mm make_memmap_ops = [Done; Done; Done]
-  /\ stale_hit (run repo false w_mm make_memmap_ops) [] MSortedKeys [] []
-  /\ stale_hit (run repo false w_mm make_memmap_ops) [] MParamCount [] [].
-Proof. split; [reflexivity|split; stale]. Qed.
+  /\ fresh_miss (run repo false w_mm make_memmap_ops) [] MSortedKeys [] []
+  /\ fresh_miss (run repo false w_mm make_memmap_ops) [] MParamCount [] [].
+Proof. split; [reflexivity|split; fresh_miss]. Qed.
 
 Definition memmap_under_lock_ops : list op := [ORead [] MDetach [] []; OMemmap [] 100; OInplace ["a"] 7%Z].
-Theorem refuted_memmap_on_locked :
-  outcomes repo false w0 memmap_under_lock_ops = [Done; Done; Done] /\ stale_hit (run repo false w0 memmap_under_lock_ops) [] MDetach [] [].
-Proof. split; [reflexivity|stale]. Qed.
+Example repaired_memmap_on_locked :
+  outcomes repo false w0 memmap_under_lock_ops = [Done; Done; Done] /\ fresh_miss (run repo false w0 memmap_under_lock_ops) [] MDetach [] [].
+Proof. split; [reflexivity|fresh_miss]. Qed.
 
+Example repaired_names_under_lock :
+  fresh_miss (run repo false w0 [ORead [] MDetach [] []; OSetNames [] (Some ["u"])]) [] MDetach [] [].
+Proof. fresh_miss. Qed.
+Example repaired_batch_size_under_lock :
+  fresh_miss (run repo false w0 [ORead [] MFlattenKeys [] []; OSetBatchSize [] []]) [] MFlattenKeys [] [].
+Proof. fresh_miss. Qed.
+
+(* D64 repaired: a lazy stack that is locked only through its members does not memoise *)
+Example derived_lock_not_memoised :
+  exists v, snd (read false w_lazy_members [] MKeyList [] []) = Some (Bypass, v, Some v)
+            /\ nodes (fst (read false w_lazy_members [] MKeyList [] [])) = nodes w_lazy_members.
+Proof. eexists; split; vm_compute; reflexivity. Qed.
+
+(* ---------------------------------------------------------------- what is still refuted *)
+(* D62 (consequence of D7, owned by C05): a nested node of a memmap_-locked tree unlocks alone *)
 Definition subtree_unlock_ops : list op := [ORead [] MFlattenKeys [] []; OUnlock ["n"]; OSet ["n"; "new"] (lfT 40 40); OLock ["n"]].
 Theorem refuted_memmap_subtree_unlock :
   outcomes repo false w_mm subtree_unlock_ops = [Done; Done; Done; Done] /\ stale_hit (run repo false w_mm subtree_unlock_ops) [] MFlattenKeys [] [].
@@ -96,49 +125,15 @@ Proof. split; [reflexivity|stale]. Qed.
 Example subtree_unlock_refused_under_lock_ : outcomes repo false w0 [OUnlock ["n"]] = [RaisedLock].
 Proof. reflexivity. Qed.
 
-Theorem refuted_names_under_lock :
-  outcomes repo false w0 [ORead [] MDetach [] []; OSetNames [] (Some ["u"])] = [Done; Done]
-  /\ stale_hit (run repo false w0 [ORead [] MDetach [] []; OSetNames [] (Some ["u"])]) [] MDetach [] [].
-Proof. split; [reflexivity|stale]. Qed.
-
-Theorem refuted_batch_size_under_lock :
-  outcomes repo false w0 [ORead [] MFlattenKeys [] []; OSetBatchSize [] []] = [Done; Done]
-  /\ stale_hit (run repo false w0 [ORead [] MFlattenKeys [] []; OSetBatchSize [] []]) [] MFlattenKeys [] [].
-Proof. split; [reflexivity|stale]. Qed.
-
-(* S11: the memoised names of a lazy stack after a member's names were assigned (the lazy stack's own setter erases) *)
-Theorem refuted_lazy_member_names :
-  outcomes repo false w_lazy [ORead [] MLazyNames [] []; OSetNames ["#0"] (Some ["u"])] = [Done; Done]
-  /\ stale_hit (run repo false w_lazy [ORead [] MLazyNames [] []; OSetNames ["#0"] (Some ["u"])]) [] MLazyNames [] [].
-Proof. split; [reflexivity|stale]. Qed.
-Example lazy_names_setter_erases :
-  let s1 := run repo false w_lazy [ORead [] MLazyNames [] []; OSetNames [] (Some ["u"])] in
-  exists acc v, snd (read false s1 [] MLazyNames [] []) = Some (acc, v, Some v) /\ acc = Miss.
-Proof. eexists; eexists; split; vm_compute; reflexivity. Qed.
-
-(* a lazy stack holds stacked COPIES in its memoised flatten_keys: stale after a plain in-place write through a member *)
+(* D65: a lazy stack holds stacked COPIES in its memoised flatten_keys: stale after a plain in-place write through a member *)
 Theorem refuted_lazy_materialised :
   outcomes repo false w_lazy [ORead [] MFlattenKeys [] []; OInplace ["#0"; "x"] 9%Z] = [Done; Done]
   /\ stale_hit (run repo false w_lazy [ORead [] MFlattenKeys [] []; OInplace ["#0"; "x"] 9%Z]) [] MFlattenKeys [] [].
 Proof. split; [reflexivity|stale]. Qed.
 
-(* unlock_erases fails for a lazy stack whose lock is derived from its members: cycling the members never erases its cache *)
-Definition member_cycle_ops : list op :=
-  [ORead [] MKeyList [] []; OUnlock ["#0"]; OUnlock ["#1"]; OSet ["#0"; "y"] (lfT 50 50); OSet ["#1"; "y"] (lfT 51 51); OLock ["#0"]; OLock ["#1"]].
-Theorem refuted_lazy_member_cycle :
-  outcomes repo false w_lazy_members member_cycle_ops = [Done; Done; Done; Done; Done; Done; Done]
-  /\ stale_hit (run repo false w_lazy_members member_cycle_ops) [] MKeyList [] [].
-Proof. split; [reflexivity|stale]. Qed.
-
-(* two is_leaf callables with different meaning at one address (the first one died): the memoised list does not retain it *)
+(* the key view and the flattened tensordict retain the callable; with D67 repaired EVERY entry retains its arguments, which is
+   what discharges the hypothesis [objs_consistent] of the soundness theorems in the library (CPython: live objects have distinct ids) *)
 Definition f_tensors : obj := {| o_addr := 50; o_uid := 1; o_sem := 1 |}.
-Definition f_all : obj := {| o_addr := 50; o_uid := 2; o_sem := 7 |}.
-Definition kw_collapse (o : obj) : list (string * arg) := [("collapse", ABool true); ("is_leaf", AObj o)].
-Theorem refuted_address_reuse :
-  stale_hit (run repo false w0 [ORead [] MValuesList [ABool true; ABool true] (kw_collapse f_tensors)])
-            [] MValuesList [ABool true; ABool true] (kw_collapse f_all).
-Proof. stale. Qed.
-(* the key view and the flattened tensordict retain the callable (pins): CPython cannot hand its address to another object *)
 Example view_retains_is_leaf :
   fresh w0 (mknode [] 1 NTD (Some true) [] false) MNestedKeys [] [("is_leaf", AObj f_tensors)] = VView false false 1 false [f_tensors]
   /\ exists meta l, fresh w0 (mknode [] 1 NTD (Some true) [] false) MFlattenKeys [] [("is_leaf", AObj f_tensors)] = VTd meta l [f_tensors].
